@@ -11,9 +11,11 @@
 package main
 
 import (
+	"bytes"
 	"fmt"
 	"go/ast"
 	"go/parser"
+	"go/printer"
 	"go/token"
 	"os"
 	"path/filepath"
@@ -168,6 +170,43 @@ func main() {
 		return nil
 	}))
 
+	// GetAllOracles walks the whole oracle store: loop condition and exits of its for statement
+	allOraclesLoop := "not found"
+	of, err := parser.ParseFile(fset, filepath.Join(repo, "x/crosschain/keeper/oracle.go"), nil, 0)
+	must(err)
+	for _, d := range of.Decls {
+		fd, ok := d.(*ast.FuncDecl)
+		if !ok || fd.Name.Name != "GetAllOracles" || fd.Body == nil {
+			continue
+		}
+		for _, st := range fd.Body.List {
+			fs, ok := st.(*ast.ForStmt)
+			if !ok {
+				continue
+			}
+			var cond, post bytes.Buffer
+			if fs.Cond != nil {
+				printer.Fprint(&cond, fset, fs.Cond)
+			}
+			if fs.Post != nil {
+				printer.Fprint(&post, fset, fs.Post)
+			}
+			exits := 0
+			ast.Inspect(fs.Body, func(n ast.Node) bool {
+				switch x := n.(type) {
+				case *ast.BranchStmt:
+					if x.Tok == token.BREAK || x.Tok == token.GOTO {
+						exits++
+					}
+				case *ast.ReturnStmt:
+					exits++
+				}
+				return true
+			})
+			allOraclesLoop = fmt.Sprintf("for init=%v; %s; %s; early exits=%d", fs.Init != nil, cond.String(), post.String(), exits)
+		}
+	}
+
 	need := []string{"MaxKeepEventSize", "MaxOracleSize", "AttestationVotesPowerThreshold",
 		"AttestationProposalOracleChangePowerThreshold", "PowerReductionBase", "PowerReductionExp", "TallyDivisor"}
 	for _, k := range need {
@@ -200,6 +239,7 @@ func main() {
 	fmt.Fprintf(&sb, "Definition gen_max_keep : Z := %s.\n", consts["MaxKeepEventSize"])
 	fmt.Fprintf(&sb, "Definition gen_max_oracles : Z := %s.\n", consts["MaxOracleSize"])
 	fmt.Fprintf(&sb, "Definition gen_power_reduction : Z := %s ^ %s.\n\n", consts["PowerReductionBase"], consts["PowerReductionExp"])
+	fmt.Fprintf(&sb, "(* the loop of Keeper.GetAllOracles: it must visit every oracle record (no bound, no early exit) *)\nDefinition gen_getalloracles_loop : string := %s.\n\n", strconv.Quote(allOraclesLoop))
 	sb.WriteString("(* \"writer <- enclosing function\" for every call of a function that writes a modelled store key *)\n")
 	sb.WriteString("Definition gen_writer_sites : list string :=\n  [")
 	for i, s := range uniq(sites) {
